@@ -1,20 +1,61 @@
-(** * C17 — the helper naming scheme is collision-free (under a tight guard). *)
+(** * C17 — the helper naming scheme is collision-free.
+
+    First the scheme of the current code (every helper is [__attr_<role>_<field>] with six
+    pairwise incomparable role tags: injective for ALL field names, no guard).  Then, as
+    documentation of what the repairs excluded, the two older schemes: [__attr_<n>] for
+    the Attribute helper (F6) and [<n>_repr] / [_<n>_key] for the custom repr callable and
+    the eq/hash key function (needed a guard on field names, shown tight; refuted without). *)
 From Coq Require Import List Bool String Ascii Arith Lia.
 Import ListNotations.
 From Attrs Require Import Core.Attr C17.Model C17.Strings.
 Open Scope string_scope.
 
+(** ** The current scheme *)
+
+Lemma helper_name_prefix r n : helper_name r n = role_prefix r +++ n.
+Proof. destruct r; reflexivity. Qed.
+
+(** The six prefixes are told apart by the first characters after [__attr_]
+    (r / k / c / v / f·a / f·i), whatever the field names are. *)
+Lemma role_prefixes_disjoint_l r1 r2 n m : helper_name r1 n = helper_name r2 m -> r1 = r2.
+Proof. destruct r1, r2; cbn; intros H; try discriminate; reflexivity. Qed.
+
+Lemma helper_names_injective_l r1 n r2 m :
+  helper_name r1 n = helper_name r2 m -> r1 = r2 /\ n = m.
+Proof.
+  intros H. assert (E := role_prefixes_disjoint_l _ _ _ _ H). subst r2. split; [reflexivity|].
+  rewrite !helper_name_prefix in H. eapply sapp_inv_head; eauto.
+Qed.
+
+Definition no_fixed_starts (p : string) : bool := forallb (fun f => negb (prefix p f)) fixed_names.
+
+Lemma helper_not_fixed_l r n : ~ In (helper_name r n) fixed_names.
+Proof.
+  intros H.
+  assert (F : forall r, no_fixed_starts (role_prefix r) = true) by (intros r0; destruct r0; vm_compute; reflexivity).
+  specialize (F r). unfold no_fixed_starts in F. rewrite forallb_forall in F. specialize (F _ H).
+  rewrite helper_name_prefix, prefix_sapp in F. discriminate.
+Qed.
+
+Example helper_name_examples :
+  map (fun r => helper_name r "x") all_roles =
+  ["__attr_repr_x"; "__attr_key_x"; "__attr_factory_x"; "__attr_converter_x"; "__attr_validator_x";
+   "__attr_field_x"].
+Proof. reflexivity. Qed.
+
+(** ** The older schemes *)
+
 Definition is_prefix_role (r : role) : bool :=
   match r with RRepr | RKey => false | _ => true end.
 
-Lemma prefix_role_name r n : is_prefix_role r = true -> helper_name r n = role_prefix r +++ n.
+Lemma old_prefix_role_name r n : is_prefix_role r = true -> old_helper_name r n = role_prefix r +++ n.
 Proof. destruct r; cbn; intros H; try discriminate; reflexivity. Qed.
 
 (** The four prefixes are told apart by the first characters after [__attr_]
     (c / v / f·a / f·i), whatever the field names are: the F6 repair. *)
-Lemma role_prefixes_disjoint_l r1 r2 n m :
+Lemma old_role_prefixes_disjoint_l r1 r2 n m :
   is_prefix_role r1 = true -> is_prefix_role r2 = true ->
-  helper_name r1 n = helper_name r2 m -> r1 = r2.
+  old_helper_name r1 n = old_helper_name r2 m -> r1 = r2.
 Proof.
   destruct r1, r2; cbn; intros H1 H2 H; try discriminate; reflexivity.
 Qed.
@@ -23,13 +64,13 @@ Qed.
 Definition old_field_name (n : string) : string := "__attr_" +++ n.
 
 Lemma old_scheme_refuted :
-  exists r n m, is_prefix_role r = true /\ r <> RField /\ old_field_name n = helper_name r m.
+  exists r n m, is_prefix_role r = true /\ r <> RField /\ old_field_name n = old_helper_name r m.
 Proof. exists RConverter, "converter_y", "y". repeat split; [discriminate]. Qed.
 
 (** Injectivity within one role. *)
-Lemma helper_name_inj_same r n m : helper_name r n = helper_name r m -> n = m.
+Lemma old_helper_name_inj_same r n m : old_helper_name r n = old_helper_name r m -> n = m.
 Proof.
-  destruct r; cbn [helper_name]; intros H.
+  destruct r; cbn [old_helper_name helper_name]; intros H.
   - eapply sapp_inv_tail; eauto.
   - cbn in H. injection H as H. eapply sapp_inv_tail; eauto.
   - eapply sapp_inv_head; eauto.
@@ -38,15 +79,15 @@ Proof.
   - eapply sapp_inv_head; eauto.
 Qed.
 
-Lemma repr_as_factor n : helper_name RRepr n = (n +++ "_") +++ "repr".
-Proof. cbn [helper_name]. now rewrite sapp_assoc. Qed.
+Lemma old_repr_as_factor n : old_helper_name RRepr n = (n +++ "_") +++ "repr".
+Proof. cbn [old_helper_name helper_name]. now rewrite sapp_assoc. Qed.
 
-Lemma key_as_factor n : helper_name RKey n = ("_" +++ n +++ "_") +++ "key".
-Proof. cbn [helper_name]. rewrite !sapp_assoc. reflexivity. Qed.
+Lemma old_key_as_factor n : old_helper_name RKey n = ("_" +++ n +++ "_") +++ "key".
+Proof. cbn [old_helper_name helper_name]. rewrite !sapp_assoc. reflexivity. Qed.
 
-Lemma repr_ne_key n m : helper_name RRepr n <> helper_name RKey m.
+Lemma old_repr_ne_key n m : old_helper_name RRepr n <> old_helper_name RKey m.
 Proof.
-  rewrite repr_as_factor. cbn [helper_name].
+  rewrite old_repr_as_factor. cbn [old_helper_name helper_name].
   replace ("_" +++ m +++ "_key") with (("_" +++ m) +++ "_key") by (now rewrite sapp_assoc).
   intros H. apply sapp_inv_tail_len in H as [_ H]; [discriminate | reflexivity].
 Qed.
@@ -62,73 +103,72 @@ Qed.
 Lemma last_char_role_prefix r : is_prefix_role r = true -> last_char (role_prefix r) = Some "_"%char.
 Proof. destruct r; intros H; try discriminate; reflexivity. Qed.
 
-Lemma repr_ne_prefix_role n r m :
+Lemma old_repr_ne_prefix_role n r m :
   name_guard RRepr n = true -> is_prefix_role r = true ->
-  helper_name RRepr n <> helper_name r m.
+  old_helper_name RRepr n <> old_helper_name r m.
 Proof.
-  intros G Hr H. rewrite repr_as_factor, (prefix_role_name r m Hr) in H.
+  intros G Hr H. rewrite old_repr_as_factor, (old_prefix_role_name r m Hr) in H.
   cbn [name_guard] in G. apply negb_true_iff in G.
   eapply suffix_vs_prefix; [exact H | now apply hits_prefix_false
                            | now apply last_char_role_prefix | reflexivity].
 Qed.
 
-Lemma key_ne_prefix_role n r m :
+Lemma old_key_ne_prefix_role n r m :
   name_guard RKey n = true -> is_prefix_role r = true ->
-  helper_name RKey n <> helper_name r m.
+  old_helper_name RKey n <> old_helper_name r m.
 Proof.
-  intros G Hr H. rewrite key_as_factor, (prefix_role_name r m Hr) in H.
+  intros G Hr H. rewrite old_key_as_factor, (old_prefix_role_name r m Hr) in H.
   cbn [name_guard] in G. apply negb_true_iff in G.
   eapply suffix_vs_prefix; [exact H | now apply hits_prefix_false
                            | now apply last_char_role_prefix | reflexivity].
 Qed.
 
 (** All helper names (six roles, any fields) are pairwise distinct under the guard. *)
-Lemma helper_names_injective_l r1 n r2 m :
+Lemma old_helper_names_injective_l r1 n r2 m :
   name_guard r1 n = true -> name_guard r2 m = true ->
-  helper_name r1 n = helper_name r2 m -> r1 = r2 /\ n = m.
+  old_helper_name r1 n = old_helper_name r2 m -> r1 = r2 /\ n = m.
 Proof.
   intros G1 G2 H.
   assert (E : r1 = r2).
   { destruct r1, r2; try reflexivity; exfalso;
-      first [ exact (repr_ne_key _ _ H)
-            | exact (repr_ne_key _ _ (eq_sym H))
-            | (refine (repr_ne_prefix_role _ _ _ G1 _ H); reflexivity)
-            | (refine (repr_ne_prefix_role _ _ _ G2 _ (eq_sym H)); reflexivity)
-            | (refine (key_ne_prefix_role _ _ _ G1 _ H); reflexivity)
-            | (refine (key_ne_prefix_role _ _ _ G2 _ (eq_sym H)); reflexivity)
-            | (assert (X := fun a b => role_prefixes_disjoint_l _ _ _ _ a b H);
+      first [ exact (old_repr_ne_key _ _ H)
+            | exact (old_repr_ne_key _ _ (eq_sym H))
+            | (refine (old_repr_ne_prefix_role _ _ _ G1 _ H); reflexivity)
+            | (refine (old_repr_ne_prefix_role _ _ _ G2 _ (eq_sym H)); reflexivity)
+            | (refine (old_key_ne_prefix_role _ _ _ G1 _ H); reflexivity)
+            | (refine (old_key_ne_prefix_role _ _ _ G2 _ (eq_sym H)); reflexivity)
+            | (assert (X := fun a b => old_role_prefixes_disjoint_l _ _ _ _ a b H);
                specialize (X eq_refl eq_refl); discriminate X) ]. }
-  subst r2. split; [reflexivity | eapply helper_name_inj_same; eauto].
+  subst r2. split; [reflexivity | eapply old_helper_name_inj_same; eauto].
 Qed.
 
 (** ... and distinct from every fixed name, without any guard. *)
 Definition no_fixed_ends (sfx : string) : bool := forallb (fun f => negb (ends_with sfx f)) fixed_names.
-Definition no_fixed_starts (p : string) : bool := forallb (fun f => negb (prefix p f)) fixed_names.
 
-Lemma helper_not_fixed_l r n : ~ In (helper_name r n) fixed_names.
+Lemma old_helper_not_fixed_l r n : ~ In (old_helper_name r n) fixed_names.
 Proof.
   intros H.
   destruct r.
   - assert (F : no_fixed_ends "_repr" = true) by (vm_compute; reflexivity).
     unfold no_fixed_ends in F. rewrite forallb_forall in F. specialize (F _ H).
-    cbn [helper_name] in F. rewrite ends_with_sapp in F. discriminate.
+    cbn [old_helper_name helper_name] in F. rewrite ends_with_sapp in F. discriminate.
   - assert (F : no_fixed_ends "_key" = true) by (vm_compute; reflexivity).
     unfold no_fixed_ends in F. rewrite forallb_forall in F. specialize (F _ H).
-    cbn [helper_name] in F.
+    cbn [old_helper_name helper_name] in F.
     replace ("_" +++ n +++ "_key") with (("_" +++ n) +++ "_key") in F by (now rewrite sapp_assoc).
     rewrite ends_with_sapp in F. discriminate.
   - assert (F : no_fixed_starts "__attr_factory_" = true) by (vm_compute; reflexivity).
     unfold no_fixed_starts in F. rewrite forallb_forall in F. specialize (F _ H).
-    cbn [helper_name] in F. rewrite prefix_sapp in F. discriminate.
+    cbn [old_helper_name helper_name] in F. rewrite prefix_sapp in F. discriminate.
   - assert (F : no_fixed_starts "__attr_converter_" = true) by (vm_compute; reflexivity).
     unfold no_fixed_starts in F. rewrite forallb_forall in F. specialize (F _ H).
-    cbn [helper_name] in F. rewrite prefix_sapp in F. discriminate.
+    cbn [old_helper_name helper_name] in F. rewrite prefix_sapp in F. discriminate.
   - assert (F : no_fixed_starts "__attr_validator_" = true) by (vm_compute; reflexivity).
     unfold no_fixed_starts in F. rewrite forallb_forall in F. specialize (F _ H).
-    cbn [helper_name] in F. rewrite prefix_sapp in F. discriminate.
+    cbn [old_helper_name helper_name] in F. rewrite prefix_sapp in F. discriminate.
   - assert (F : no_fixed_starts "__attr_field_" = true) by (vm_compute; reflexivity).
     unfold no_fixed_starts in F. rewrite forallb_forall in F. specialize (F _ H).
-    cbn [helper_name] in F. rewrite prefix_sapp in F. discriminate.
+    cbn [old_helper_name helper_name] in F. rewrite prefix_sapp in F. discriminate.
 Qed.
 
 Lemma fixed_names_nodup : NoDup fixed_names.
@@ -144,24 +184,24 @@ Qed.
 
 (** The guard is tight: a field name it rejects really collides with the helper of
     some other possible field. *)
-Lemma name_guard_tight_l r n :
-  name_guard r n = false -> exists r' m, r' <> r /\ helper_name r n = helper_name r' m.
+Lemma old_name_guard_tight_l r n :
+  name_guard r n = false -> exists r' m, r' <> r /\ old_helper_name r n = old_helper_name r' m.
 Proof.
   assert (X : forall u tl, hits_prefix u = true ->
-            exists r' m, is_prefix_role r' = true /\ u +++ tl = helper_name r' m).
+            exists r' m, is_prefix_role r' = true /\ u +++ tl = old_helper_name r' m).
   { intros u tl H. unfold hits_prefix in H. apply existsb_exists in H as (r' & Hin & Hp).
     apply prefix_true in Hp as (k & ->).
     exists r', (k +++ tl). split.
     - destruct Hin as [<-|[<-|[<-|[<-|[]]]]]; reflexivity.
-    - rewrite sapp_assoc. symmetry. apply prefix_role_name.
+    - rewrite sapp_assoc. symmetry. apply old_prefix_role_name.
       destruct Hin as [<-|[<-|[<-|[<-|[]]]]]; reflexivity. }
   destruct r; cbn [name_guard]; intros H; try discriminate; apply negb_false_iff in H.
   - destruct (X _ "repr" H) as (r' & m & Hr & E). exists r', m. split.
     + intros ->. discriminate.
-    + now rewrite repr_as_factor.
+    + now rewrite old_repr_as_factor.
   - destruct (X _ "key" H) as (r' & m & Hr & E). exists r', m. split.
     + intros ->. discriminate.
-    + now rewrite key_as_factor.
+    + now rewrite old_key_as_factor.
 Qed.
 
 (** The simple sufficient condition. *)
@@ -205,9 +245,9 @@ Proof.
 Qed.
 
 (** Without the guard the scheme is not injective: the two collision shapes. *)
-Lemma helper_names_unguarded_refuted :
-  (helper_name RRepr "__attr_factory" = helper_name RFactory "repr") /\
-  (helper_name RKey "_attr_converter_b" = helper_name RConverter "b_key") /\
+Lemma old_helper_names_unguarded_refuted :
+  (old_helper_name RRepr "__attr_factory" = old_helper_name RFactory "repr") /\
+  (old_helper_name RKey "_attr_converter_b" = old_helper_name RConverter "b_key") /\
   name_guard RRepr "__attr_factory" = false /\ name_guard RKey "_attr_converter_b" = false.
 Proof. repeat split. Qed.
 
